@@ -1,13 +1,13 @@
 SPECIFICATION Spec
 CONSTANTS
-  MaxStim = 3
+  MaxStim = 2
   MaxPings = 2
   AsCoded = FALSE
   BadId = FALSE
   AnyPort = FALSE
-  Layout = 1
-  Pingers = {1, 3}
-  Toggle = {2, 4, 5}
+  Layout = 2
+  Pingers = {1, 2, 3}
+  Toggle = {3, 4}
 INVARIANT CacheEntriesTruthful
 INVARIANT UpImpliesPower
 INVARIANT OwedOnlyByOwner
